@@ -404,6 +404,30 @@ def gen_c14_sweep(seed, shard, nshards):
             h.sid += 1
             h.add(f"TR {rng.randrange(len(keys))}")
             out.append(h)
+    # boundary case of "a key outside the interval its parent's separators allow": a leaf's last
+    # key made EQUAL to the separator on its right, while the leaf on the right starts above that
+    # separator (stale separator after a deletion), so that nothing else in the state is wrong
+    if shard == 0:
+        for cap in (4, 6, 8):
+            half = cap // 2
+            for p_ in range(0, 7):
+                h = Hist(f"eqsep{cap}.{p_}", "rust", cap)
+                for k in range(0, 10 * half * 12, 10):          # sparse ascending keys: leaves of cap/2 keys
+                    h.add(f"I {k} {h.sid} {h.sid * 10}")
+                    h.sid += 1
+                sep = 10 * half * (p_ + 1)                       # first key of leaf p+1 = separator on the right of leaf p
+                for j in range(1, half + 1):                     # fill leaf p+1 so that a removal does not underflow it
+                    h.add(f"I {sep + j} {h.sid} {h.sid * 10}")
+                    h.sid += 1
+                h.add(f"R {sep}")
+                h.add("V")
+                h.add(f"DMG LLK {p_} {sep}")
+                h.add("V")
+                h.add(f"G {sep}")
+                h.add(f"TI {sep + 5} {h.sid} {h.sid * 10}")
+                h.sid += 1
+                h.add(f"TR {sep + 1}")
+                out.append(h)
     return out
 
 
